@@ -223,6 +223,12 @@ func (d *differ) value(path string, a, b cadence.Value) string {
 		}
 		return ""
 	case cadence.TypeValue:
+		if d.eq.IgnoreValueTypes {
+			if ia, ib := typeString(x.StaticType), typeString(b.(cadence.TypeValue).StaticType); ia != ib {
+				return fmt.Sprintf("%s: type values %s vs %s", path, ia, ib)
+			}
+			return ""
+		}
 		return d.typ(path+".<staticType>", x.StaticType, b.(cadence.TypeValue).StaticType)
 	case cadence.Capability:
 		y := b.(cadence.Capability)
